@@ -55,6 +55,15 @@ def collect(ck, it, scenario, entry, at_default):
     return n
 
 
+def _decide(cond, node, file, fn):
+    """C06 keeps going after a branch on a traced value (the event is the finding): take the generic
+    outcome, else the `False` branch"""
+    from vf.harness import generic_decide
+
+    r = generic_decide(cond, node, file, fn)
+    return False if r is None else r
+
+
 def _p(x):
     if isinstance(x, Tens):
         return x.data[0] if x.shape == () else x
@@ -98,7 +107,7 @@ def run(tier="quick", only_key=None):
 
     # ------------------------------------------------------------------ S2: construction
     for parity in (0,):
-        it = new_interp(ck.repo, parity=parity, stub_etdrk=True)
+        it = new_interp(ck.repo, parity=parity, stub_etdrk=True, decide=_decide)
         it.ctx.call_log = set()
         steppers = catalog.exported_steppers(it)
         ck.floor("exported steppers", len(steppers), 30)
@@ -123,7 +132,7 @@ def run(tier="quick", only_key=None):
 
                     run_entry(it, "S2 construction under filter_vmap", name, thunk, loc(cls.find("__init__")))
         # integrators with a real constructor
-        it_e = new_interp(ck.repo, parity=0, stub_etdrk=False)
+        it_e = new_interp(ck.repo, parity=0, stub_etdrk=False, decide=_decide)
         it_e.ctx.call_log = set()
         et = it_e.module("exponax.etdrk").env
         lam = Poly.atom(("s", "lam"))
@@ -144,7 +153,7 @@ def run(tier="quick", only_key=None):
         for D in (1, 2, 3):
             run_entry(it, "S2 construction", f"exponax.poisson.Poisson(D={D})", lambda: it.call(Po, [D, L, N]), loc(Po.find("__init__")))
         # ------------------------------------------------------------------ S1: calls with a traced state
-        it1 = new_interp(ck.repo, parity=0, stub_etdrk="symbolic")
+        it1 = new_interp(ck.repo, parity=0, stub_etdrk="symbolic", decide=_decide)
         it1.ctx.opaque_nonlinear = True
         it1.ctx.call_log = set()
         st1 = dict((c.name, c) for _, c in catalog.exported_steppers(it1))
